@@ -33,8 +33,12 @@ from ..common import COQ, COQ_FLAGS, SRC, VERIF, Ctx, cq, cstr, parse_coq_value,
 LEVEL = "proof"
 GEN_DIR = COQ / "gen_proofs"
 FIXED = ["C12_GenAlg", "C12_GenDeriv", "C12_GenDeriv2", "C12_GenFit"]
-GEN_PROPS = ["C12_GenProperties", "C12_GenPropertiesD"]
+# second stage: started as soon as the scripts it imports have been checked (not after the whole first stage)
+FIXED2 = {"C12_GenEquiv": ["C12_GenAlg", "C12_GenDeriv"]}
+GEN_PROPS = ["C12_GenProperties", "C12_GenPropertiesB", "C12_GenPropertiesD", "C12_GenPropertiesE", "C12_GenPropertiesF",
+             "C12_GenPropertiesG"]
 WHAT_FIXED = {
+    "C12_GenEquiv": "equivalent coefficient sets (same surface => same gradients; polar -> Cartesian -> polar keeps gradients and shifts)",
     "C12_GenAlg": "polar = Cartesian expansion, Cartesian gradient = rotated polar gradient, conversions round trip, merge",
     "C12_GenDeriv": "analytic gradient = wavelength x true derivative of the surface (is_derive)",
     "C12_GenDeriv2": "Cartesian gradient = wavelength x derivative of the surface along Cartesian directions",
@@ -51,6 +55,39 @@ ALL_LABELS = []
 for _s in POLAR_SYMBOLS:
     if _s.startswith("C"):
         ALL_LABELS += [_s] if _s[2] == "0" else [_s + "_a", _s + "_b"]
+
+# which oracle families exercise the formula a lemma of the fixed scripts is about: when a lemma stops going
+# through on the model translated from the current source, the failing-input search is aimed at these families
+SCRIPT_FAMILY = {"C12_GenAlg": ["surface", "conversions", "merge", "equivalence"], "C12_GenDeriv": ["surface"],
+                 "C12_GenDeriv2": ["surface"], "C12_GenFit": ["fit", "fit2", "shift"],
+                 "C12_GenEquiv": ["equivalence", "shift"]}
+LEMMA_FAMILY = {
+    "polar_eq_cartesian": ["surface"], "cartesian_grad_rotation": ["surface"],
+    "roundtrip_cart": ["conversions"], "roundtrip_polar": ["conversions"], "symbols_covered": ["tables"],
+    "labels_covered": ["tables"], "chi_of_cartesian": ["conversions", "merge"], "merge_surface": ["merge"],
+    "chi_roundtrip_all": ["equivalence"], "roundtrip_general": ["equivalence", "conversions"],
+    "roundtrip_iso": ["equivalence", "conversions"], "tables_tied": ["tables", "alias"], "tables_closed": ["tables"],
+    "grad_alpha": ["surface"], "grad_phi": ["surface"], "grad_is_lambda_times_derivative": ["surface"],
+    "grad_cartesian_directional": ["surface"],
+    "dchi_dk_env3": ["shift", "fit"], "dchi_dphi_env3": ["shift", "fit"], "rot_grid": ["shift", "fit"],
+    "shift_matrix": ["shift", "fit", "fit2"], "torch_polar_is": ["fit", "fit2"], "svd_polar": ["fit", "fit2"],
+    "fit_reads": ["fit", "fit2"], "flip_pos": ["fit"], "flip_neg": ["fit"], "fit_extracts": ["fit"],
+    "fit_extracts_svd": ["fit"], "proper_rotation_form": ["fit2"], "astig_of_symmetric": ["fit2"],
+    "fit_reproduces_matrix": ["fit2"], "fit_equivalent": ["fit2"], "fit_predicts_same_shifts": ["fit2", "shift"],
+    "fit_extracts_weak": ["fit2"], "fit_large_angle": ["fit2"], "fit_large_angle_neg": ["fit2"],
+    "same_surface_same_gradients": ["equivalence", "surface"], "gradients_roundtrip": ["equivalence"],
+    "shifts_roundtrip": ["equivalence", "shift"],
+}
+FOCUS = 4          # extra factor (on top of the 10x escalation) for the families a failing lemma points at
+
+
+def focus_families(failed_scripts):
+    """failed_scripts: ['C12_GenAlg:roundtrip_polar', ...] -> sorted list of oracle families to aim at"""
+    fams = set()
+    for fs in failed_scripts:
+        script, _, lem = fs.partition(":")
+        fams.update(LEMMA_FAMILY.get(lem) or SCRIPT_FAMILY.get(script, []))
+    return sorted(fams)
 
 
 def _flags(ctx):
@@ -135,10 +172,10 @@ class ProofPhase:
         ctx = self.ctx
         gen = ctx.dir / "Gen_Chi.v"
         gen.write_text(self.T.emit_coq())
-        for stale in ["Gen_Chi.vo"] + [f + ".vo" for f in FIXED + GEN_PROPS]:
+        for stale in ["Gen_Chi.vo"] + [f + ".vo" for f in FIXED + list(FIXED2) + GEN_PROPS]:
             if (ctx.dir / stale).exists():
                 (ctx.dir / stale).unlink()
-        bad = ctx.static_scan([gen] + self.gen_props + [GEN_DIR / (f + ".v") for f in FIXED])
+        bad = ctx.static_scan([gen] + self.gen_props + [GEN_DIR / (f + ".v") for f in FIXED + list(FIXED2)])
         if bad:
             self.problems.append("forbidden declarations: %s" % bad[:5])
         rc, out = sh(["timeout", "300", "coqc"] + _flags(ctx) + [str(gen)], cwd=ctx.dir, timeout=330)
@@ -156,8 +193,26 @@ class ProofPhase:
             (ctx.dir / (name + ".out")).write_text(out)
             self._results[name] = (rc, out)
 
+        done = {name: threading.Event() for name in FIXED}
+
+        def comp1(name):
+            try:
+                comp(name)
+            finally:
+                done[name].set()
+
+        def comp2(name, deps):
+            for d in deps:
+                done[d].wait()
+            if all(self._results.get(d, (1, ""))[0] == 0 for d in deps):
+                comp(name)
+            else:
+                self._results[name] = (0, "skipped: %s did not check" % ", ".join(
+                    d for d in deps if self._results.get(d, (1, ""))[0] != 0))
+
         def pipeline():
-            ts = [threading.Thread(target=comp, args=(name,), daemon=True) for name in FIXED]
+            ts = [threading.Thread(target=comp1, args=(name,), daemon=True) for name in FIXED]
+            ts += [threading.Thread(target=comp2, args=(name, deps), daemon=True) for name, deps in FIXED2.items()]
             for t in ts:
                 t.start()
             for t in ts:
@@ -173,7 +228,7 @@ class ProofPhase:
 
     def _judge_fixed(self):
         ok = True
-        for name in FIXED:
+        for name in FIXED + list(FIXED2):
             rc, out = self._results[name]
             if rc != 0:
                 ok = False
@@ -234,7 +289,7 @@ class ProofPhase:
         ctx.cov["checker_cmd"] = (
             getattr(self, "cmd1", "") + "  ;  python -m harness.translate_chi build/C12/Gen_Chi.v && coqc %s Gen_Chi.v && "
             "coqc ... -o build/C12/<S>.vo coq/gen_proofs/<S>.v for S in %s && coqc ... coq/gen_proofs/<P>.v for P in %s"
-            % (" ".join(_flags(ctx)), ",".join(FIXED), ",".join(GEN_PROPS)))
+            % (" ".join(_flags(ctx)), ",".join(FIXED + list(FIXED2)), ",".join(GEN_PROPS)))
         if problems:
             ctx.broken_obligation = "; ".join(problems)
             ctx.log("PROOF OBLIGATION BROKEN:", ctx.broken_obligation[:3000])
@@ -344,12 +399,13 @@ def handler_exprs(case):
 def run_handlers(case):
     from .. import oracle_C12 as O
     res = {}
+    d = O.materialize(case)          # the same numbers, possibly held as NumPy scalars / tensors / bool / str
     if not case["nested"]:
-        res["validate"] = O.run_validate(case["dict"])
-        res["standardize"] = O.run_standardize(case["dict"])
-    res["setter(%s)" % case["max_order"]] = O.run_setter(case["dict"], case["max_order"])
+        res["validate"] = O.run_validate(d)
+        res["standardize"] = O.run_standardize(d)
+    res["setter(%s)" % case["max_order"]] = O.run_setter(d, case["max_order"])
     if case["max_order"] == 5 and case.get("real_object"):
-        res["setter-object"] = O.run_setter(case["dict"], 5, real_object=True)
+        res["setter-object"] = O.run_setter(d, 5, real_object=True)
     return res
 
 
@@ -389,8 +445,11 @@ def alias_cases(ctx):
         {"dict": {"foo": 1.0, "defocus": 2.0}, "nested": False, "max_order": 5},
     ]
     cases += fixed
-    for _ in range(ctx.budget(260, 4000)):
-        cases.append(O.gen_alias_case(r))
+    for i in range(ctx.budget(260, 4000)):
+        c = O.gen_alias_case(r)
+        if i % 4 == 3:
+            c = O.add_value_kinds(r, c)
+        cases.append(c)
     return cases
 
 
@@ -421,6 +480,11 @@ def check_alias(ctx: Ctx, model_available=True):
             ctx.dist("alias/%s=%s" % (h.split("(")[0], "ok" if "ok" in r_ else "err%d" % r_["err"]))
         ctx.count(("alias", json.dumps(c, sort_keys=True)), nontrivial=bool(eff), n=len(res))
         bad = O.oracle_alias(c, res)
+        for kd in sorted(set((c.get("kinds") or {}).values())):
+            ctx.dist("alias/value-type=%s" % kd)
+        if bad is None and "validate" in res:
+            bad = O.oracle_hyperparameter_state(c, res["validate"])
+            ctx.dist("alias/hyperparameter-state=%s" % ("ok" if "ok" in res["validate"] else "rejected"))
         oracle_bad[i] = bad
         if bad:
             nbad += 1
@@ -442,16 +506,74 @@ def check_alias(ctx: Ctx, model_available=True):
                               found_input=oracle_bad[i] is not None)
     ctx.sample({"kind": "alias", "case": cases[len(cases) // 2], "impl": impl[len(cases) // 2]})
     ctx.log("alias handlers: %d dictionaries, %d oracle failures, %d model disagreements" % (len(cases), nbad, ndis))
+    check_setter_sequences(ctx)
+
+
+SEQ_FIXED = [
+    {"steps": [{"C10": -250.0}, {"defocus": 100.0}], "max_order": 5, "real_object": True},
+    {"steps": [{"defocus": 100.0}, {"defocus": 200.0}, {"energy": 80000.0}], "max_order": 5, "real_object": True},
+    {"steps": [{"aberration_coefs": {"C10": -40.0}}, {"defocus": 310.0, "Cs": 5.0, "C12": 2.0, "phi12": 0.5}], "max_order": 5,
+     "real_object": True},
+    {"steps": [{"defocus": 100.0, "C30": 7.0}, {"energy": 80000.0}, {"C10": 5.0, "defocus": 100.0}], "max_order": 3},
+    {"steps": [{"Cs": 1000.0}, {"foo": 1.0}, {"defocus": -3.5}], "max_order": None},
+]
+
+
+def check_setter_sequences(ctx: Ctx):
+    """the probe-params setter assigned several times on ONE object (stand-in namespace and real ProbePixelated):
+    every assignment must mean what the same dictionary means on a fresh object (which the model correspondence
+    of check_alias ties to the Coq model), and 'defocus' must still enter as C10 = -defocus"""
+    from .. import oracle_C12 as O
+    r = ctx.rng
+    cases = list(corpus(ctx).get("sequences", [])) + SEQ_FIXED + [O.gen_setter_seq(r) for _ in range(ctx.budget(60, 1200))]
+    nbad = 0
+    for c in cases:
+        for real in ([False, True] if c.get("real_object") else [False]):
+            if real and c["max_order"] != 5:
+                continue
+            got = O.run_setter_seq(c["steps"], c["max_order"], real_object=real)
+            fresh = [O.run_setter(d, c["max_order"], real_object=real) for d in c["steps"]]
+            ctx.dist("setter-sequence/%s/steps=%d" % ("object" if real else "namespace", len(c["steps"])))
+            ctx.count(("seq", real, json.dumps(c, sort_keys=True)), nontrivial=any(O._effective(d) for d in c["steps"][1:]),
+                      n=len(c["steps"]))
+            bad = O.oracle_setter_seq(c, got, fresh)
+            if bad:
+                nbad += 1
+                ctx.violation(bad[0], bad[1], {"kind": "setter-sequence", "case": dict(c, real_object=real)})
+    # values that are not numbers must not be accepted silently
+    njunk = 0
+    for key in ["defocus", "C10", "Cs", "phi12", "astigmatism"]:
+        for kind in O.JUNK_KINDS:
+            for nested in (False, True):
+                jc = {"key": key, "kind": kind, "nested": nested}
+                ctx.dist("alias/non-numeric=%s" % kind)
+                ctx.count(("junk", key, kind, nested), nontrivial=True)
+                njunk += 1
+                bad = O.oracle_junk(jc)
+                if bad:
+                    nbad += 1
+                    ctx.violation(bad[0], bad[1], {"kind": "junk", "case": jc})
+    ctx.log("setter sequences: %d, non-numeric values: %d, oracle failures %d" % (len(cases), njunk, nbad))
 
 
 # ==========================================================================================
 # (d) oracle on the implementation
 
 
-def check_oracle(ctx: Ctx, escalate: bool):
+def check_oracle(ctx: Ctx, escalate: bool, focus=(), T=None):
+    """escalate: 10x budget (drift / translator / proof failure); focus: oracle families that a failing lemma of the
+    fixed scripts points at — those get FOCUS x more cases still, so the failing-input search is aimed at the formula
+    whose proof broke"""
     from .. import oracle_C12 as O
     r = ctx.rng
-    mult = 10 if escalate else 1
+    base = 10 if escalate else 1
+    focus = set(focus)
+
+    def mult(fam):
+        return base * (FOCUS if fam in focus else 1)
+
+    if escalate:
+        ctx.cov["escalation"] = {"budget": "x%d" % base, "focused_families": sorted(focus), "focus_factor": FOCUS if focus else 1}
     wls = [0.0197, 0.0251, 0.0370, 0.05, 1 / 32.0]
     for c in corpus(ctx).get("cases", []):
         replay_case(ctx, c, report=True)
@@ -466,36 +588,76 @@ def check_oracle(ctx: Ctx, escalate: bool):
             ctx.violation(res[0], res[1], {"kind": kind, "case": case})
         return res
 
-    n = ctx.budget(160, 2500) * mult
+    # tables: deterministic
+    ctx.dist("oracle/tables")
+    ctx.count(("tables",), nontrivial=True)
+    for key, what, found in O.oracle_tables(T):
+        stats["tables"] = stats.get("tables", 0) + 1
+        ctx.violation(key, what, {"kind": "tables"}, found_input=found)
+
+    n = ctx.budget(160, 2500) * mult("surface")
     sample = None
     for i in range(n):
-        kind, coefs = O.gen_polar(r)
+        kind, coefs = O.gen_polar(r, "outside" if i % 8 == 7 else None)
         a, p = O.gen_points(r, 24)
         case = {"coefs": coefs, "alpha": a, "phi": p, "wavelength": r.choice(wls)}
         ctx.dist("surface/coefs=%s" % kind)
         run("surface", case, O.oracle_surface)
         sample = sample or {"kind": "surface", "coefs": coefs, "wavelength": case["wavelength"], "points": 24}
     ctx.sample(sample)
-    for i in range(ctx.budget(150, 2500) * mult):
+    for i in range(ctx.budget(150, 2500) * mult("conversions")):
         run("conversions", {"cart": O.gen_cart(r), "polar": O.gen_polar(r, "principal")[1]}, O.oracle_conversions)
-    for i in range(ctx.budget(80, 1500) * mult):
+    for i in range(ctx.budget(120, 2000) * mult("equivalence")):
+        kind, coefs = O.gen_polar(r, r.choice(["outside", "outside", "all", "subset", "single"]))
+        a, p = O.gen_points(r, 12)
+        ctx.dist("equivalence/coefs=%s" % kind)
+        ctx.dist("equivalence/negative-magnitudes=%s" % any(v < 0 for k, v in coefs.items() if not k.startswith("phi")))
+        run("equivalence", {"coefs": coefs, "alpha": a, "phi": p, "wavelength": r.choice(wls)}, O.oracle_equivalence)
+    for i in range(ctx.budget(12, 200) * mult("reps")):
+        a, p = O.gen_points(r, 6)
+        coefs = {k: r.randint(-48, 48) / 16.0 for k in POLAR_SYMBOLS if r.random() < 0.7} or {"C10": 1.5}
+        reps = r.sample(O.REPS, 3)
+        for kd in reps:
+            ctx.dist("representation/%s" % kd)
+        run("reps", {"coefs": coefs, "alpha": a, "phi": p, "wavelength": r.choice(wls), "reps": reps}, O.oracle_reps)
+    for i in range(ctx.budget(80, 1500) * mult("merge")):
         a, p = O.gen_points(r, 12)
         run("merge", {"init": O.gen_polar(r)[1], "delta": O.gen_cart(r), "alpha": a, "phi": p, "wavelength": r.choice(wls)},
             O.oracle_merge)
+    for i in range(ctx.budget(60, 1000) * mult("shift")):
+        case = O.gen_shift_case(r)
+        ctx.dist("shift/mask=%s" % case["mask"]["kind"])
+        ctx.dist("shift/rotation=%s" % ("None" if case["theta"] is None else "zero" if case["theta"] == 0 else "angle"))
+        run("shift", case, O.oracle_shift_general)
     fs = None
-    for i in range(ctx.budget(150, 2500) * mult):
+    for i in range(ctx.budget(150, 2500) * mult("fit")):
         case = O.gen_fit(r)
         ctx.dist("fit/sign(C10)=%s" % ("+" if case["C10"] > 0 else "-"))
         run("fit", case, O.oracle_fit)
         fs = fs or {"kind": "fit", "case": case}
     ctx.sample(fs)
-    ctx.log("oracle on the implementation (%s budget): failures by family %s" % ("10x" if escalate else "tier", stats or "none"))
+    fs = None
+    for i in range(ctx.budget(200, 3000) * mult("fit2")):
+        case = O.gen_fit2(r)
+        ctx.dist("fit2/domain=%s" % case["domain"])
+        ctx.dist("fit2/mask=%s" % case["mask"]["kind"])
+        ctx.dist("fit2/grid=%s" % ("odd" if case["gpts"][0] % 2 else "even"))
+        run("fit2", case, O.oracle_fit2)
+        fs = fs or {"kind": "fit2", "case": case}
+    ctx.sample(fs)
+    ctx.log("oracle on the implementation (%s budget%s): failures by family %s"
+            % ("10x" if escalate else "tier", ", aimed at %s" % sorted(focus) if focus else "", stats or "none"))
+
+
+ORACLES = ["surface", "conversions", "merge", "fit", "equivalence", "reps", "shift", "fit2"]
 
 
 def replay_case(ctx, rp, report=False):
     from .. import oracle_C12 as O
     kind, case = rp.get("kind"), rp.get("case")
-    fn = {"surface": O.oracle_surface, "conversions": O.oracle_conversions, "merge": O.oracle_merge, "fit": O.oracle_fit}.get(kind)
+    fn = {"surface": O.oracle_surface, "conversions": O.oracle_conversions, "merge": O.oracle_merge, "fit": O.oracle_fit,
+          "equivalence": O.oracle_equivalence, "reps": O.oracle_reps, "shift": O.oracle_shift_general,
+          "fit2": O.oracle_fit2, "junk": O.oracle_junk}.get(kind)
     if fn is None:
         return None
     res = fn(case)
@@ -531,7 +693,18 @@ def run(ctx: Ctx):
         "dictionaries [flat / nested aberration_coefs / defocus only / defocus and C10 in both orders / None values / "
         "invalid keys, dyadic values, max order 5/3/1/None] run through all three handlers and the Coq model; plus the "
         "translator cross-test points (one per generated function, label and component).  A case is distinct by its full "
-        "content; alias cases count as non-trivial when at least one item carries a number")
+        "content; alias cases count as non-trivial when at least one item carries a number.  Round 3: coefficient sets "
+        "OUTSIDE the principal domain (negative magnitudes, angles of several turns, m*phi = +-pi) for the surface / "
+        "gradient oracle and for the equivalence oracle (polar -> Cartesian -> polar keeps surface, gradients; magnitudes "
+        "|C|, angles in (-pi, pi]); coefficient values as float / NumPy scalar / 0-d and 1-element tensors of either "
+        "precision; the naming tables at run time vs source text, every ABERRATION_PRESETS entry (label parsing, basis "
+        "columns), labels of invalid kind; lateral shifts with ANY coefficient set x rotation (None / 0 / angle) x grid "
+        "(odd / even, non-square) x anisotropic sampling x bright-field mask shape [centred disk with or without the "
+        "centre pixel / half disks / quadrant / off-axis sub-disk / annulus / random subset] against autograd; the fit "
+        "on all those masks in the domains inside / pure defocus / |theta| > pi/2 / even orders added on an "
+        "inversion-symmetric mask / indefinite (recorded only); the probe-params setter assigned 2-4 times on one "
+        "object (stand-in namespace and real ProbePixelated); alias values as bool / NumPy / tensor / numeric string; "
+        "non-numeric values; HyperparameterState")
     ctx.assumptions += [
         "torch float64/float32 arithmetic, torch.cos/sin/sqrt/atan2/remainder and math.cos/sin are the real functions to "
         "rounding (exercised by the cross-test on every run)",
@@ -539,7 +712,11 @@ def run(ctx: Ctx):
         "returns orthogonal U, Vh and non-negative singular values with M = U diag(S) Vh (hypotheses of C12_svd_polar / "
         "C12_fit_extracts_svd; exercised numerically by the fit round trip)",
         "tensors are read pointwise (broadcasting, boolean-mask selection and device moves do not change values)",
-        "dictionary values handed to the alias handlers are numbers, None or (probe_params) nested dictionaries",
+        "dictionary values handed to the alias handlers are None, (probe_params) nested dictionaries, or anything float() "
+        "converts (int, float, bool, NumPy scalar, one-element tensor, numeric string) - read by the model as that number; "
+        "values float() rejects are covered by the oracle only (every handler must raise)",
+        "torch.linalg.lstsq returns the least-squares solution (normal equations): the oracle-only clause 'even-order "
+        "aberrations do not change the fit on an inversion-symmetric mask' rests on it",
     ]
     ctx.cov["trusted_base"] += [
         "Coq 8.16.1 kernel incl. vm_compute (runs the alias-handler model)",
@@ -571,10 +748,16 @@ def run(ctx: Ctx):
         xt = CrossTest(ctx, ph.T, P)
         xt.start()
     check_alias(ctx, model_available=(COQ / "model" / "C12_Model.vo").exists())
+    # the oracle runs while the fixed proof scripts are still being checked; when one of them turns out to fail,
+    # a second, escalated pass aimed at the families of the failing lemma follows
+    early = (ph.T is None) or (not ph.gen_ok) or bool(ph._static_problems)
+    check_oracle(ctx, early, T=ph.T)
     fixed_ok = ph.join_fixed()
     ctx.log("fixed proof scripts: %s" % ("all check" if fixed_ok else "FAILED " + ", ".join(ph.failed_scripts)))
-    escalate = (ph.T is None) or (not ph.gen_ok) or (not fixed_ok) or bool(ph._static_problems)
-    check_oracle(ctx, escalate)
+    if ph.gen_ok and not fixed_ok:
+        focus = focus_families(ph.failed_scripts)
+        ctx.log("failing lemma(s) %s -> failing-input search aimed at the oracle families %s" % (ph.failed_scripts, focus))
+        check_oracle(ctx, True, focus=focus, T=ph.T)
     if xt is not None:
         finish_crosstest(ctx, xt)
     ph.finish()
@@ -584,7 +767,23 @@ def replay(ctx: Ctx, path):
     from .. import oracle_C12 as O
     rp = json.loads(open(path).read())
     kind = rp.get("kind")
-    if kind in ("surface", "conversions", "merge", "fit"):
+    if kind == "tables":
+        bad = O.oracle_tables(None)
+        for key, what, _ in bad:
+            print("%s: %s" % (key, what))
+        print("oracle:", "tables violate the property" if bad else "property holds on the tables")
+        return 1 if bad else 0
+    if kind == "setter-sequence":
+        c = rp["case"]
+        real = bool(c.get("real_object"))
+        got = O.run_setter_seq(c["steps"], c["max_order"], real_object=real)
+        fresh = [O.run_setter(d, c["max_order"], real_object=real) for d in c["steps"]]
+        bad = O.oracle_setter_seq(c, got, fresh)
+        for d, g, f in zip(c["steps"], got, fresh):
+            print("assign", d, "->", g, "| fresh object:", f)
+        print("oracle:", "%s: %s" % bad if bad else "property holds on this case")
+        return 1 if bad else 0
+    if kind in ORACLES + ["junk"]:
         res = replay_case(ctx, rp)
         print("case:", json.dumps(rp["case"])[:2000])
         print("oracle:", "%s: %s" % res if res else "property holds on this case")
